@@ -5,7 +5,7 @@
 (* replay) and WF checks that the universe stays inside the grammar.           *)
 EXTENDS IrcLine
 
-CONSTANT Thorough
+CONSTANTS Thorough, Shard, NShards   \* the tag sections are dealt out to NShards TLC processes
 
 T(k, v) == [k |-> k, v |-> v, hv |-> TRUE]
 K(k) == [k |-> k, v |-> "", hv |-> FALSE]
@@ -31,9 +31,11 @@ Msg(tg, s, v, ms, tr, sp) ==
   [hasTags |-> tg # <<>>, tags |-> tg, src |-> s, verb |-> v, mids |-> ms, hasTrail |-> tr[1], trail |-> tr[2], sp |-> sp]
 
 \* CTCP payloads only where the property defines them: exactly target + text
+TagSeq == SetToSeq(TagSecs)
+MyTags == {TagSeq[i] : i \in {j \in 1..Len(TagSeq) : j % NShards = Shard}}
 Messages ==
-  {Msg(tg, s, v, ms, tr, sp) : tg \in TagSecs, s \in Sources, v \in Verbs, ms \in MidSeqs, tr \in Plain, sp \in Sps}
-  \cup {Msg(tg, s, v, ms, tr, sp) : tg \in TagSecs, s \in Sources, v \in Verbs, ms \in {q \in MidSeqs : Len(q) = 1}, tr \in Ctcps, sp \in Sps}
+  {Msg(tg, s, v, ms, tr, sp) : tg \in MyTags, s \in Sources, v \in Verbs, ms \in MidSeqs, tr \in Plain, sp \in Sps}
+  \cup {Msg(tg, s, v, ms, tr, sp) : tg \in MyTags, s \in Sources, v \in Verbs, ms \in {q \in MidSeqs : Len(q) = 1}, tr \in Ctcps, sp \in Sps}
 
 VARIABLE m
 Init == m \in Messages
